@@ -14,7 +14,7 @@ RULE = ('all ordered pairs of {K (every prefix), Cel, degF, degR}; every documen
         'distinct by (u, v, magnitude bucket)')
 SHARDS = {'quick': 16, 'thorough': 16}
 MIN_NONTRIVIAL = {'quick': 3000, 'thorough': 50000}
-REQUIRED_CLASSES = ['temperature', 'temperature-prefixed-kelvin', 'temperature-identity', 'level-to-linear', 'linear-to-level',
+REQUIRED_CLASSES = ['array-magnitude', 'temperature', 'temperature-prefixed-kelvin', 'temperature-identity', 'level-to-linear', 'linear-to-level',
                     'ratio', 'bel-neper', 'level-offset', 'log-identity', 'level-sum', 'level-difference', 'fraction-form',
                     'power-like', 'amplitude-like', 'neper']
 REQUIRED_MONITORS = ['forward_compares', 'inverse_compares', 'identity_compares', 'sum_compares']
@@ -118,7 +118,22 @@ def _run(case, ctx):
     r = case['r']
     devs, mon, classes = [], {}, []
 
+    as_array = case['k'] % 4 == 1        # every fourth magnitude of a pair goes through a NumPy array magnitude
+
     def conv(x, u, v, how='to'):
+        if as_array:
+            # the scalar sits in the middle of an array; the neighbours must not influence it and must stay finite
+            classes.append('array-magnitude') if 'array-magnitude' not in classes else None
+            q = Q([x, x, x], u)
+            if how == 'to':
+                q.to(v)
+                vals = q.magnitude.value
+            else:
+                vals = q.value(v)
+            vals = [float(z) for z in vals]
+            if not (vals[0] == vals[1] == vals[2]) and not all(z != z for z in vals):
+                devs.append(dev('array-elements-converted-differently', dict(u=u, v=v, x=x, observed=vals)))
+            return vals[1], q
         q = Q(x, u)
         if how == 'to':
             q.to(v)
